@@ -364,3 +364,54 @@ add('c07-set-indexes-with-list', ['C01', 'C07'], 'fire', 'Slicer.set',
     'a list selection is used as one index again', module='pyplate/slicer.py')
 add('c13-subslice-keeps-cache', ['C13'], 'fire', 'Slicer.__getitem__',
     "new_slicer._forget_cached()", 'pass', 'sub-slices keep the cached shape and size of their parent', module='pyplate/slicer.py', count=2)
+
+# ------------------------------------------------------------------------------------------------ obligations shared after round 3
+add('c02-remove-volume-in-moles-unit', ['C02', 'C10', 'C17'], 'fire', 'Container.remove',
+    "substance_unit = 'U' if substance.is_enzyme() else config.moles_storage_unit", 'substance_unit = config.moles_storage_unit',
+    'the stored volume after remove leaves out the enzymes: the next volume transfer divides by it')
+add('c03-stale-solvent-operand', ['C03', 'C05', 'C08'], 'fire', 'Recipe.bake',
+    'solvent = self.results[solvent.name]\n', 'pass\n',
+    'create_solution in a recipe draws from the solvent container as declared: its gates see the old state')
+add('c07-same-name-is-same-plate', ['C01', 'C07'], 'fire', 'PlateSlicer._transfer',
+    'if to.plate != frm.plate:', 'if to.plate.name != frm.plate.name:', 'two plates with one name are treated as one plate')
+add('c07-vectorize-without-cache', ['C01', 'C02', 'C07'], 'fire', 'Slicer.apply',
+    'result = numpy.vectorize(func, cache=True)(self.array.__getitem__(elem))',
+    'result = numpy.vectorize(func)(self.array.__getitem__(elem))', 'the per-well function runs twice on the first well',
+    module=S)
+add('c08-remove-skipped-when-dry', ['C08'], 'fire', 'Recipe.bake',
+    "            if isinstance(what, Substance):\n                step.instructions = f\"Remove {what.name} from '{dest_name}'.\"",
+    "            if isinstance(dest, Container) and (not dest.has_liquid()):\n                step.to.append(dest)\n                continue\n"
+    "            if isinstance(what, Substance):\n                step.instructions = f\"Remove {what.name} from '{dest_name}'.\"",
+    'a remove step is skipped on one path')
+add('c17-reslice-by-item', ['C07', 'C08', 'C17'], 'fire', 'Recipe.bake',
+    "                dest = deepcopy(dest)\n                dest.plate = self.results[dest_name]\n            else:\n                dest = self.results[dest_name]\n            if isinstance(what, Substance):",
+    "                dest = self.results[dest_name][dest.item]\n            else:\n                dest = self.results[dest_name]\n            if isinstance(what, Substance):",
+    'a remove step on a slice of a slice acts on the parent region')
+add('c11-plate-fill-swallows-refusal', ['C03', 'C07', 'C11'], 'fire', 'PlateSlicer.fill_to',
+    '    new_slice.apply(lambda elem: elem.fill_to(solvent, quantity))',
+    '    def fill(elem):\n        try:\n            return elem.fill_to(solvent, quantity)\n        except ValueError:\n            return elem\n    new_slice.apply(fill)',
+    'a well that cannot be filled is returned unchanged instead of refusing the call')
+add('c14-parsed-value-against-molarity', ['C12', 'C14'], 'fire', 'Container.create_solution_from',
+    '    a = numpy.array([[0.0, 0.0], [0.0, 0.0]])',
+    "    if concentration > max(m_x, m_y):\n        raise ValueError('too concentrated')\n    a = numpy.array([[0.0, 0.0], [0.0, 0.0]])",
+    'the number parsed from the string is compared with a molarity whatever the spelling')
+add('c15-record-built-in-cached-set', ['C09', 'C15'], 'fire', 'Recipe.bake',
+    '            step.substances_used = set.difference(step.to[0].get_substances(), step.to[1].get_substances())',
+    '            step.substances_used = step.to[0].get_substances()\n            step.substances_used -= step.to[1].get_substances()',
+    'the memoised set of a container is changed in place')
+add('c18-capacity-compare-unrounded', ['C03', 'C18'], 'fire', 'Container._self_add',
+    'new_volume = round(self.volume + volume_to_add, config.internal_precision)', 'new_volume = self.volume + volume_to_add',
+    'an exact fit is decided by the representation error of the sum in the storage unit')
+add('c18-deficit-rounded-at-user-precision', ['C18'], 'fire', 'Recipe.get_substance_used',
+    'if delta < 0:', "if round(delta, config.precisions[unit] if unit in config.precisions else config.precisions['default']) < 0:",
+    'the tolerated deficit depends on the storage unit')
+add('c18-internal-precision-alias', ['C03', 'C10', 'C18'], 'silent', 'Container._self_add',
+    '    new_volume = round(self.volume + volume_to_add, config.internal_precision)',
+    '    digits = config.internal_precision\n    new_volume = round(self.volume + volume_to_add, digits)',
+    'the internal precision through a local name')
+add('c13-caller-step-dropped', ['C13'], 'fire', 'Slicer.parse_slice',
+    'return slice(start, stop, step)', 'return slice(start, stop, None)', 'every well of the range is addressed instead of every n-th',
+    module=S)
+add('c13-explicit-edge-stop', ['C13', 'C07'], 'silent', 'Slicer.parse_slice',
+    'return slice(start, stop, step)', 'return slice(start, len(labels) if stop is None else stop, step)',
+    'an open stop written as the edge of the plate', module=S)
